@@ -24,11 +24,45 @@ def run(ctx):
     skeleton_rules(ctx, F)
 
 
+def size_hint_capped(ctx, F):
+    """/Count comes from the file.  What size_hint promises is what `collect()` / `get_pages()` reserve before the first page is
+    produced, so both bounds are capped by the number of objects of the document (a page is an object): min(.., objects.len())."""
+    from mir import op_place
+    sh = F.fn("<PageTreeIter as Iterator>::size_hint")
+
+    def capped(o, depth=10):
+        for _ in range(depth):
+            q = op_place(o)
+            if q is None:
+                k = lib._const_int_through(sh, o)
+                return k == 0
+            d = sh.single_def(q["l"])
+            if d is None:
+                return False
+            if d[2] == "rv" and d[3]["k"] in ("use", "cast"):
+                o = d[3]["o"]
+                continue
+            if d[2] == "rv" and d[3]["k"] == "agg" and len(d[3]["ops"]) == 1:
+                o = d[3]["ops"][0]          # Some(x)
+                continue
+            if d[2] == "call":
+                fn = d[3]["f"].get("fn") or ""
+                if re.search(r"cmp::(Ord::)?min$", fn) and len(d[3]["args"]) == 2:
+                    return any(re.search(r"^len\(.*\.objects\)$", sh.sname(a, 6).replace("&", "").replace("*", "")) for a in d[3]["args"])
+            return False
+        return False
+    rets = [s_ for bi, si, s_ in sh.stmts() if "lhs" in s_ and s_["lhs"]["l"] == 0 and not s_["lhs"]["p"] and s_["rv"]["k"] == "agg"]
+    ok = bool(rets) and all(len(s_["rv"]["ops"]) == 2 and capped(s_["rv"]["ops"][0]) and capped(s_["rv"]["ops"][1]) for s_ in rets)
+    ctx.ob("R-GUARD", "size-hint-capped-by-objects", ok, "both bounds of size_hint are min(sum of /Count, objects.len())", sh.where(),
+           what="PageTreeIter::size_hint promises a number of pages taken from /Count without capping it by the number of objects: with a hostile /Count behind a page already yielded, collect() / get_pages() ask for that capacity and panic (capacity overflow) or abort")
+
+
 def skeleton_rules(ctx, F):
     """the structural rules of the page iterator (everything except the panic/termination inventory): shared with the
     properties whose operations enumerate pages (renumbering, deleting pages, text extraction)."""
     nx = F.fn("<PageTreeIter as Iterator>::next")
     R = "R-ORDER"
+    size_hint_capped(ctx, F)
     # rule 2: Some(_) only for Type == Page
     somes = lib.blocks_assigning_ret_variant(nx, "Some")
     ctx.floor(R, "`return Some(id)` sites in next", len(somes), 1)
